@@ -197,6 +197,11 @@ func run(_ *testing.T, c Case) engine.Verdict {
 					if res.err == nil {
 						return engine.Failf("C12/"+fname+"/error-missing", "Recv #%d: error required (%s), got record %s and nil error; stream %s", i, st.Why, engine.Q(res.data), engine.Q(stream))
 					}
+					if len(res.data) == 0 && len(st.Rec) != 0 && st.Final && res.err == io.EOF {
+						// a cut-off record that vanishes behind a plain io.EOF cannot be
+						// told from a clean end of stream: shortened to nothing, silently
+						return engine.Failf("C12/"+fname+"/final-record-dropped-silently", "Recv #%d: the stream ends inside a record (%s, %d bytes) and Recv returned no data and plain io.EOF, exactly as for a clean end; stream %s", i, st.Why, len(st.Rec), engine.Q(stream))
+					}
 					if len(res.data) != 0 && !bytes.Equal(res.data, st.Rec) {
 						return engine.Failf("C12/"+fname+"/final-record-shortened", "Recv #%d: data returned with the error (%s) is %s, the complete bytes are %s; stream %s", i, st.Why, engine.Q(res.data), engine.Q(st.Rec), engine.Q(stream))
 					}
@@ -493,7 +498,110 @@ func enumBig(env engine.Env, yield func(Case) bool) {
 	}
 }
 
+// bufsize: records and header lines whose length sits on a multiple of the
+// 4096-byte buffer that bufio.Reader uses by default (where ReadSlice reports
+// ErrBufferFull and ReadLine reports isPrefix), terminated and cut off by the
+// end of the stream.
+func enumBuf(env engine.Env, yield func(Case) bool) {
+	idx := 0
+	emit := func(f refframe.Framing, s []byte, origin string) bool {
+		for d := 0; d < 4; d++ {
+			idx++
+			if !env.Mine(idx) {
+				continue
+			}
+			c := Case{Framing: f, Stream: engine.Bytes(s), Origin: origin, EOFWithData: d == 1}
+			switch d {
+			case 2: // reads that end exactly on buffer boundaries
+				for o := 4096; o < len(s); o += 4096 {
+					c.Cuts = append(c.Cuts, o)
+				}
+			case 3: // reads that end one byte before
+				for o := 4095; o < len(s); o += 4096 {
+					c.Cuts = append(c.Cuts, o)
+				}
+			}
+			if !yield(c) {
+				return false
+			}
+		}
+		return true
+	}
+	body := func(n int) []byte {
+		b := make([]byte, n)
+		for i := range b {
+			b[i] = "abcdefghijklmnopqrstuvwxyz0123456789"[i%36]
+		}
+		return b
+	}
+	lens := []int{4094, 4095, 4096, 4097, 8191, 8192, 8193, 12288, 16384, 16385}
+	for _, f := range framings {
+		switch f.Name {
+		case "split":
+			sep := []byte{f.Split}
+			for _, n := range lens {
+				for shape := 0; shape < 5; shape++ {
+					var s []byte
+					switch shape {
+					case 0: // unterminated final record
+						s = body(n)
+					case 1:
+						s = append(append(body(5), sep...), body(n)...)
+					case 2:
+						s = append(append(body(n), sep...), body(3)...)
+					case 3:
+						s = append(body(n), sep...)
+					case 4: // the separator is the last byte of a buffer
+						s = append(append(body(n-1), sep...), body(n)...)
+					}
+					if !emit(f, s, "bufsize") {
+						return
+					}
+				}
+			}
+		case "strict", "header":
+			payload := []byte(`{"jsonrpc":"2.0","id":1,"method":"m"}`)
+			for _, n := range []int{4090, 4094, 4095, 4096, 4097, 4098, 8192, 8193, 12290} {
+				for shape := 0; shape < 4; shape++ {
+					var sb bytes.Buffer
+					pad := func(total int, prefix string) string { // a header line of exactly total bytes including CRLF
+						return prefix + strings.Repeat("p", total-len(prefix)-2) + "\r\n"
+					}
+					if f.Mime != "" {
+						fmt.Fprintf(&sb, "Content-Type: %s\r\n", f.Mime)
+					}
+					switch shape {
+					case 0: // long unknown field before the length
+						sb.WriteString(pad(n, "X-Pad: "))
+						fmt.Fprintf(&sb, "Content-Length: %d\r\n\r\n", len(payload))
+					case 1: // long unknown field after the length
+						fmt.Fprintf(&sb, "Content-Length: %d\r\n", len(payload))
+						sb.WriteString(pad(n, "X-Pad: "))
+						sb.WriteString("\r\n")
+					case 2: // the tail of a long line reads like a length field
+						line := "X-Pad: " + strings.Repeat("p", n-7-len("Content-Length: 1")-2)
+						sb.WriteString(line + "Content-Length: 1\r\n")
+						fmt.Fprintf(&sb, "Content-Length: %d\r\n\r\n", len(payload))
+					case 3: // ... placed so that it starts exactly at a buffer boundary
+						line := "X-Pad: " + strings.Repeat("p", 4096*max(1, n/4096)-7)
+						sb.WriteString(line + "Content-Length: 1\r\n")
+						fmt.Fprintf(&sb, "Content-Length: %d\r\n\r\n", len(payload))
+					}
+					sb.Write(payload)
+					sb.Write(frame(f, []byte(`[]`), f.Mime != ""))
+					if !emit(f, sb.Bytes(), "bufsize") {
+						return
+					}
+				}
+			}
+		}
+	}
+}
+
 var parts = []engine.AnyPart{
+	engine.Part[Case]{Name: "bufsize", Run: run, Enum: enumBuf,
+		Rule:           "records (split framings) and header lines (header framings) whose length is 4096k-2 .. 4096k+2, terminated or cut off by the end of the stream, alone or next to short records, a header-line tail that reads like a second Content-Length; delivered whole, with data+EOF, and in reads that end on or just before buffer boundaries; non-trivial as in enum; distinct = (framing, stream, delivery)",
+		EnumExhaustive: "the stated family of buffer-boundary streams for every framing"},
 	engine.Part[Case]{Name: "enum", Run: run, Enum: enum,
 		Rule:           "every stream of up to N tokens over a framing-specific alphabet (split: 4 symbols, N=8; rawjson: 13 symbols, N=5; header framings: 22 tokens incl. hostile lengths, N=4, behind 4 seeded prefixes; thorough: N+1), delivered whole / in 1-byte reads / with data+EOF; non-trivial = not produced by Send and containing at least one frame header or delimiter; distinct = (framing, stream, delivery)",
 		EnumExhaustive: "all token sequences up to the stated length for each framing and prefix"},
